@@ -29,3 +29,4 @@ mod c15;
 mod c18;
 mod c19;
 mod premises;
+mod protocol;
